@@ -20,9 +20,13 @@ def enc_opt(s):
 class Cat:
     """a catalog in the three forms needed: plan_query kwargs, model JSON, spec view"""
 
-    def __init__(self, ints, pns, pm, dns):
+    TS = {'timeseries': True, 'order_by_column': 'y', 'group_by_columns': ['x'], 'window': 3}
+
+    def __init__(self, ints, pns, pm, dns, extras=None):
         # ints: None | list of ('n', name) | ('d', name, type, class_type|None)
         # pm: None | ('list'|'legacy', [(name, integ|None)])
+        # extras: {model name: further metadata (e.g. Cat.TS for a time-series model)} — irrelevant for resolution
+        self.extras = dict(extras or {})
         if pm is not None and pm[0] == 'legacy':     # a dict: a repeated key keeps its first position and the last value
             d = {}
             for n, i in pm[1]:
@@ -48,10 +52,11 @@ class Cat:
         if self.pm is not None:
             kind, ps = self.pm
             if kind == 'list':
-                kw['predictor_metadata'] = [dict({'name': n}, **({'integration_name': i} if i is not None else {}))
-                                            for n, i in ps]
+                kw['predictor_metadata'] = [dict({'name': n}, **({'integration_name': i} if i is not None else {}),
+                                                 **self.extras.get(n, {})) for n, i in ps]
             else:
-                kw['predictor_metadata'] = {n: ({'integration_name': i} if i is not None else {}) for n, i in ps}
+                kw['predictor_metadata'] = {n: dict(({'integration_name': i} if i is not None else {}), **self.extras.get(n, {}))
+                                            for n, i in ps}
         if self.dns is not None:
             kw['default_namespace'] = self.dns
         return kw
@@ -168,15 +173,15 @@ def variants(cat):
     out = []
     if cat.ints is not None:
         out.append(('names->dicts', Cat([('d', it[1], 'data', None) if it[0] == 'n' else it for it in cat.ints],
-                                        cat.pns, cat.pm, cat.dns)))
+                                        cat.pns, cat.pm, cat.dns, cat.extras)))
         out.append(('dicts->names', Cat([('n', it[1]) if it[0] == 'd' and it[2] == 'data' and it[3] is None else it
-                                         for it in cat.ints], cat.pns, cat.pm, cat.dns)))
-        out.append(('upper', Cat([(it[0], it[1].upper()) + tuple(it[2:]) for it in cat.ints], cat.pns, cat.pm, cat.dns)))
+                                         for it in cat.ints], cat.pns, cat.pm, cat.dns, cat.extras)))
+        out.append(('upper', Cat([(it[0], it[1].upper()) + tuple(it[2:]) for it in cat.ints], cat.pns, cat.pm, cat.dns, cat.extras)))
         if cat.ints == []:
-            out.append(('[]->None', Cat(None, cat.pns, cat.pm, cat.dns)))
+            out.append(('[]->None', Cat(None, cat.pns, cat.pm, cat.dns, cat.extras)))
     if cat.pm is not None and all('.' not in n for n, _ in cat.pm[1]) and len({n for n, _ in cat.pm[1]}) == len(cat.pm[1]):
         other = 'legacy' if cat.pm[0] == 'list' else 'list'
-        out.append(('list<->legacy', Cat(cat.ints, cat.pns, (other, cat.pm[1]), cat.dns)))
+        out.append(('list<->legacy', Cat(cat.ints, cat.pns, (other, cat.pm[1]), cat.dns, cat.extras)))
     return out
 
 
@@ -759,6 +764,60 @@ class QGen:
             self.features.add('model-version')
         self.alias_n += 1
         return '.'.join(parts) + ' AS m%d' % self.alias_n
+
+    def model_name(self, ts=None, version=None):
+        """one model reference of the catalog: project in any spelling (or omitted under a matching default
+        namespace), name in any case, version suffix or none"""
+        rng = self.rng
+        ps = [x for x in self.cat.pm[1] if '.' not in x[0] and (ts is None or (x[0] in self.cat.extras) == ts)]
+        if not ps:
+            return None
+        n, i = rng.choice(ps)
+        proj = i if i is not None else (self.cat.pns.lower() if self.cat.pns else 'mindsdb')
+        parts = []
+        if not (self.cat.dns and self.cat.dns.lower() == proj.lower() and rng.random() < 0.4):
+            parts.append(spell(rng, proj.lower()) if self.spellings else proj.lower())
+        parts.append(rng.choice([n, n, n.upper(), n.capitalize()]))
+        if version is None:
+            version = rng.choice([None, None, '1', '2', '3', '12'])
+        if version:
+            parts.append(str(version))
+        return '.'.join(parts)
+
+    def multi_model(self):
+        """a statement with SEVERAL model references that differ in version / spelling, on the paths that take the
+        version from get_predictor (select from a model, time-series join) and on the ordinary join path"""
+        rng = self.rng
+        m = lambda **kw: self.model_name(ts=False, **kw)
+        sel_m = lambda: 'SELECT * FROM %s WHERE x = %d' % (m(), rng.randint(0, 2))
+        shape = rng.choice(['union', 'union3', 'cte', 'where-sub', 'join+sub', 'join-union', 'ts-join', 'ts-union'])
+        self.features.add('multi-model/' + shape)
+        if m() is None:
+            return None
+        tr = self.tref(force_alias=True)
+        if shape == 'union':
+            return '%s UNION %s' % (sel_m(), sel_m())
+        if shape == 'union3':
+            return '%s UNION ALL %s UNION %s' % (sel_m(), sel_m(), sel_m())
+        if shape == 'cte':
+            return 'WITH cm AS (%s) %s' % (sel_m(), sel_m())
+        if shape == 'where-sub':
+            return 'SELECT * FROM %s WHERE %s IN (SELECT id FROM %s WHERE x = 1) AND %s IN (SELECT id FROM %s WHERE x = 2)' % (
+                tr['sql'], self.col(tr, 'id', 'tab'), m(), self.col(tr, 'id', 'tab'), m())
+        if shape == 'join+sub':
+            return 'SELECT * FROM %s JOIN %s AS mm WHERE %s IN (SELECT id FROM %s WHERE x = 1)' % (
+                tr['sql'], m(), self.col(tr, 'id', 'tab'), m())
+        if shape == 'join-union':
+            tr2 = self.tref(force_alias=True)
+            return 'SELECT * FROM %s JOIN %s AS mm UNION SELECT * FROM %s JOIN %s AS mm' % (tr['sql'], m(), tr2['sql'], m())
+        t1, t2 = self.model_name(ts=True), self.model_name(ts=True)
+        if t1 is None:
+            return '%s UNION %s' % (sel_m(), sel_m())
+        tr2 = self.tref(force_alias=True)
+        if shape == 'ts-join':
+            return 'SELECT * FROM (SELECT * FROM %s JOIN %s AS tb) AS q1 JOIN (SELECT * FROM %s JOIN %s AS tb) AS q2 ON q1.id = q2.id' % (
+                tr['sql'], t1, tr2['sql'], t2)
+        return 'SELECT * FROM %s JOIN %s AS tb UNION SELECT * FROM %s JOIN %s AS tb' % (tr['sql'], t1, tr2['sql'], t2)
 
     def statement(self):
         """-> (sql, kind)"""
